@@ -1006,6 +1006,14 @@ def minishard_final_before_use(repo, col):
                     grown.add(b.attr)
     grown -= {"_last_chunk_id", "_appended", "next_cmc"}
     grown = {a for a in grown if not a.startswith("__")}
+    # properties of the minishard computed from what still grows
+    for c_ in repo.mro(ms):
+        for pname, pf in c_.methods.items():
+            if any("property" in norm(d) for d in pf.node.decorator_list) and \
+                    any(isinstance(x, ast.Attribute) and
+                        isinstance(x.value, ast.Name) and x.value.id == "self"
+                        and x.attr in grown for x in ast.walk(pf.node)):
+                grown.add(pname)
     fn = repo.func("sharded_file_accessor", "Shard.close", inline=True)
     cfg = fn.cfg()
     dom = cfg.dominators()
@@ -1062,6 +1070,37 @@ def minishard_final_before_use(repo, col):
                     "offset taken here is too small for every minishard "
                     "after the first" % (norm(x), getattr(x, "lineno", 0)),
                     node=x)
+    # a helper of the shard that looks at the minishards (a generator that
+    # filters them, a method that sums their sizes) reads them where it is
+    # called
+    from .core import resolve_local_call, helper_closure
+    for c in calls_in(fn.node):
+        h = resolve_local_call(fn, c)
+        if h is None or h.key == fn.key:
+            continue
+        reads = [x for g in helper_closure(h, depth=2)
+                 for x in ast.walk(g.node)
+                 if isinstance(x, ast.Attribute) and
+                 isinstance(x.ctx, ast.Load) and x.attr in grown and
+                 isinstance(x.value, ast.Name) and
+                 x.value.id not in ("self", "cls")]
+        if not reads:
+            continue
+        st = owner.get(id(c))
+        sn = cfg.node_of(st) if st is not None else None
+        if sn is None:
+            continue
+        n += 1
+        ok = any(cn.id in dom[sn.id] for cn in closes) or any(
+            ln_.id in dom[sn.id] and id(st) not in body
+            for ln_, body in close_loops)
+        col.add(rule, fn, "%s(): %s read after close()" % (
+            h.qualname.split(".")[-1], norm(reads[0])), ok,
+            "" if ok else "%s reads `%s` of the minishards and is called at "
+            "line %d, where no minishard has been closed yet: close() still "
+            "appends the parked chunks and the gap entries, so what it sees "
+            "is not final" % (h.qualname, norm(reads[0]),
+                              getattr(c, "lineno", 0)), node=c)
     if n == 0:
         col.add(rule, fn, "reads of %s" % ", ".join(sorted(grown)), True,
                 "no read of the growing attributes recognised",
@@ -1368,7 +1407,16 @@ def jpeg_pixel_type_checked(repo, col):
                     evidence.append((f, g, x.attr))
                 if isinstance(x, ast.Call) and (call_name(x) or "").split(
                         ".")[-1] in ("getbands", "can_cast", "issubdtype"):
-                    evidence.append((f, g, "call"))
+                    # the *number* of bands says nothing about the pixel
+                    # type ("I;16", "1" and "F" images have one band)
+                    counted = any(
+                        isinstance(y, ast.Call) and call_name(y) == "len"
+                        and any(z is x for z in ast.walk(y))
+                        for y in ast.walk(g.test if hasattr(g, "test")
+                                          else g))
+                    if not ((call_name(x) or "").endswith("getbands")
+                            and counted):
+                        evidence.append((f, g, "call"))
         for c in calls_in(f.node):
             nm = (call_name(c) or "").split(".")[-1]
             if nm == "convert" and c.args:
